@@ -48,6 +48,6 @@ with concurrent.futures.ThreadPoolExecutor(max_workers=par) as ex:
         print(d, res.get("exit", res.get("error")), res.get("signatures", [])[:3], res.get("wall_s"))
 prev.update(out)
 out = prev
-json.dump(out, open(os.path.join(root, "SWEEP_%s.json" % tier), "w"), indent=1)
+json.dump(out, open(sp, "w"), indent=1)
 missed = [d for d, r in out.items() if r.get("exit") != 1]
 print("caught %d of %d; not caught: %s" % (len(out) - len(missed), len(out), missed))
